@@ -195,4 +195,21 @@ IocCorruptions(env, T0, v) ==
     [] T.k \in {"SEQOF", "SETOF"} ->
          UNION {{<<x[1], [v EXCEPT ![i] = x[2]]>> : x \in IocCorruptions(env, T.t, v[i])} : i \in DOMAIN v}
     [] OTHER -> {}
+\* ---- values of the TYPE that the C representation cannot hold (C04 / C14) -----------------------
+\* An unconstrained or semi-constrained INTEGER has values beyond long / unsigned long; their encodings are
+\* valid encodings of the type, and a decoder built on the native representation must refuse them cleanly.
+\* <<value with one INTEGER leaf replaced>>
+UnrepresentableInts(c) ==
+  {x \in {IPow2(63), IPow2(64), IInc(IPow2(64)), IDec(INeg(IPow2(63))), IPow2(127), INeg(IPow2(71))} :
+      ~Representable(c, x) /\ Sat(c, x, BMin, BMax)}
+RECURSIVE Overflows(_, _, _)
+Overflows(env, T0, v) ==
+  LET T == Resolve(env, T0) IN
+  CASE T.k = "INTEGER" -> UnrepresentableInts(T.c)
+    [] T.k \in {"SEQUENCE", "SET"} /\ ~IsIoSeq(T) ->
+         LET cs == AllComps(T)
+         IN UNION {{[v EXCEPT ![i] = Pres(x)] : x \in Take(Overflows(env, cs[i].t, v[i][1]), 2)} : i \in {j \in DOMAIN cs : IsPres(v[j])}}
+    [] T.k = "CHOICE" -> {MkAlt(AltOf(v), x) : x \in Take(Overflows(env, CompByName(T, AltOf(v)).t, AltVal(v)), 2)}
+    [] T.k \in {"SEQOF", "SETOF"} -> UNION {{[v EXCEPT ![i] = x] : x \in Take(Overflows(env, T.t, v[i]), 1)} : i \in DOMAIN v}
+    [] OTHER -> {}
 =============================================================================
